@@ -191,6 +191,7 @@ def parseRun (toks : List String) : Except String (List (ObsMsg × String)) :=
 inductive ModelKind where
   | sample (n : Nat) | statecount (t : Int) | wherecount (m r : Nat) | evalcount
   | alert (pr : CountPred) | iql (m : Method)
+  | wherenested (m r : Nat) | evalnested | alertnested (k : Nat)
 
 def modelKind? (kind : String) (p1 p2 : Nat) : Option ModelKind :=
   match kind with
@@ -202,6 +203,9 @@ def modelKind? (kind : String) (p1 p2 : Nat) : Option ModelKind :=
   | "alertmod" => some (.alert (.mod p1))
   | "sum" => some (.iql .sum)
   | "count" => some (.iql .count)
+  | "wherenested" => some (.wherenested p1 p2)
+  | "evalnested" => some .evalnested
+  | "alertnested" => some (.alertnested p1)
   | _ => none
 
 def renderOuts (l : List (GroupID × Out)) : List String := l.map (fun go => s!"{go.2.key}|{go.2.time}|{go.2.proj}")
@@ -215,6 +219,9 @@ def runModel (k : ModelKind) (items : List (Item Pt)) : List String :=
   | .evalcount => renderOuts (runNode evalCountNode () items)
   | .alert pr => renderOuts (runNode (alertNode pr) () items)
   | .iql m => renderOuts (runNode (iqlNode m) {} items)
+  | .wherenested m r => renderOuts (runNode (whereNestedNode m r) 0 items)
+  | .evalnested => renderOuts (runNode evalNestedNode 0 items)
+  | .alertnested k => renderOuts (runNode (alertNodeShared (.gt k)) 0 items)
 
 /-- float sums / float comparisons are outside the concrete models -/
 def modelApplies (k : ModelKind) (pts : List Pt) : Bool :=
@@ -295,6 +302,13 @@ def judgeIso (lines : Array String) : Verdict := Id.run do
     let failing := (solo.filter (fun gs => !isolatedFor fullMsgs gs.1 gs.2)).map (·.1)
     let foreign := fullMsgs.any (fun m => !(solo.any (fun gs => gs.1 == m.key)))
     let predicted := match modelFull with | some m => m == fullR.map (·.2) | none => true
+    -- recorded deviation nested-lambda-state-shared: the node's lambda uses a lambda var with a stateful function;
+    -- only accepted when the output is EXACTLY what the model with one nested state per node predicts
+    let nestedKind := match modelKind? kind p1 p2 with
+      | some (.wherenested _ _) | some .evalnested | some (.alertnested _) => true
+      | _ => false
+    if nestedKind && modelFull.isSome && predicted && !foreign && !failing.isEmpty then
+      return .known "nested-lambda-state-shared" s!"node {kind}: groups {failing} see the nested lambda's count() of all groups"
     if !failing.isEmpty && failing.all (fun g => colliding.contains g) && !foreign && predicted then
       return .known "groupid-delimiter-collision" s!"node {kind}: groups {failing} share a receiver because their ids collide"
     let g := failing.headD "output-for-a-group-without-input"
